@@ -249,3 +249,22 @@ where
         }
     }
 }
+
+#[cfg(feature = "verif-hooks")]
+impl<K, V> RecursiveContext<K, V>
+where
+    K: Hash + Eq + Debug + Clone,
+    V: Debug + Clone,
+{
+    /// Verification hook: (stack depth, search graph size, cache dump).
+    pub(super) fn verif_state(&self) -> (usize, usize, Vec<String>) {
+        (
+            self.stack.verif_len(),
+            self.search_graph.verif_len(),
+            self.cache
+                .as_ref()
+                .map(|c| c.verif_dump())
+                .unwrap_or_default(),
+        )
+    }
+}
